@@ -47,7 +47,7 @@ public:
    */
   Binary &operator=(Binary &&src) {
     if (&src != this) {
-      delete in_data_;
+      delete[] in_data_;
       size_ = src.size_;
       ex_data_ = src.ex_data_;
       in_data_ = src.in_data_;
@@ -159,7 +159,7 @@ public:
    */
   Extension &operator=(Extension &&src) {
     if (&src != this) {
-      delete in_data_;
+      delete[] in_data_;
       type_ = src.type_;
       size_ = src.size_;
       ex_data_ = src.ex_data_;
